@@ -201,6 +201,17 @@ class Source:
             b = self._find_line(last, self.text.rfind("\n", 0, a) + 1, body_hi, 0)
             b_end = self._stmt_end(b, body_hi)
         ls = self.text.rfind("\n", 0, a) + 1
+        # the cut must be a sequence of whole statements: brackets balanced inside it
+        depth = 0
+        for ch in self.masked[ls:b_end]:
+            if ch in "([{":
+                depth += 1
+            elif ch in ")]}":
+                depth -= 1
+                if depth < 0:
+                    break
+        if depth != 0:
+            raise AnchorLost(f"{self.path}: anchors `{first}` .. `{until or last}` no longer delimit whole statements of `{name}`")
         return self.text[ls:b_end], (self.line_of(a), self.line_of(b_end - 1))
 
     def _find_line(self, lead, lo, hi, ordinal=0):
